@@ -14,7 +14,11 @@
 
 //! Hop-pattern-based path policy matching.
 
-use std::{borrow::Cow, collections::BTreeSet, str::FromStr};
+use std::{
+    borrow::Cow,
+    collections::{BTreeSet, HashMap},
+    str::FromStr,
+};
 
 pub use parser::ParseError;
 
@@ -125,7 +129,25 @@ impl HopPatternExpression {
     /// If it matches zero hops (e.g. an optional expression), it returns `BTreeSet` with `pos`.
     /// If it can match multiple ways, it returns all resulting positions.
     pub fn match_from(&self, hops: &[PathPolicyHop], pos: usize) -> BTreeSet<usize> {
-        match self {
+        self.match_from_memoized(hops, pos, &mut HashMap::new())
+    }
+
+    /// [`Self::match_from`] with the results of sub-expressions remembered per start position.
+    ///
+    /// Repetition operators evaluate their operand from every position they reach; without the
+    /// memo the work multiplies at every nesting level (`1****…` took exponential time).
+    fn match_from_memoized(
+        &self,
+        hops: &[PathPolicyHop],
+        pos: usize,
+        memo: &mut MatchMemo,
+    ) -> BTreeSet<usize> {
+        let key = (std::ptr::from_ref(self), pos);
+        if let Some(known) = memo.get(&key) {
+            return known.clone();
+        }
+
+        let result = match self {
             HopPatternExpression::HopPredicate(pred) => {
                 if pos < hops.len() && hops[pos].matches(pred) {
                     let mut set = BTreeSet::new();
@@ -138,8 +160,8 @@ impl HopPatternExpression {
 
             HopPatternExpression::Or(a, b) => {
                 // union of both branch results
-                let mut left = a.match_from(hops, pos);
-                let mut right = b.match_from(hops, pos);
+                let mut left = a.match_from_memoized(hops, pos, memo);
+                let mut right = b.match_from_memoized(hops, pos, memo);
                 left.append(&mut right);
                 left
             }
@@ -148,22 +170,25 @@ impl HopPatternExpression {
                 let mut res = BTreeSet::new();
                 // either skip or take one inner match
                 res.insert(pos);
-                res.extend(inner.match_from(hops, pos));
+                res.extend(inner.match_from_memoized(hops, pos, memo));
                 res
             }
 
             HopPatternExpression::OneOrMore(inner) => {
                 // must match once, then repeat while possible
-                Self::all_nested_matches(hops, pos, inner)
+                Self::all_nested_matches(hops, pos, inner, memo)
             }
 
             HopPatternExpression::ZeroOrMore(inner) => {
                 // allow zero matches plus as many repeats as possible
-                let mut vec = Self::all_nested_matches(hops, pos, inner);
+                let mut vec = Self::all_nested_matches(hops, pos, inner, memo);
                 vec.insert(pos);
                 vec
             }
-        }
+        };
+
+        memo.insert(key, result.clone());
+        result
     }
 
     /// Recursively matches the inner expression starting from `pos`, collecting all reachable
@@ -173,15 +198,16 @@ impl HopPatternExpression {
         hops: &[PathPolicyHop],
         pos: usize,
         inner: &HopPatternExpression,
+        memo: &mut MatchMemo,
     ) -> BTreeSet<usize> {
         let mut all = BTreeSet::new();
-        let mut frontier = inner.match_from(hops, pos);
+        let mut frontier = inner.match_from_memoized(hops, pos, memo);
         all.extend(&frontier);
 
         while !frontier.is_empty() {
             let mut next = BTreeSet::new();
             for p in frontier {
-                let res = inner.match_from(hops, p);
+                let res = inner.match_from_memoized(hops, p, memo);
                 for n in res {
                     if !all.contains(&n) {
                         all.insert(n);
@@ -195,6 +221,9 @@ impl HopPatternExpression {
         all
     }
 }
+
+/// Positions reachable by a sub-expression (identified by its address) from a start position.
+type MatchMemo = HashMap<(*const HopPatternExpression, usize), BTreeSet<usize>>;
 
 #[cfg(test)]
 mod tests {
